@@ -20,7 +20,7 @@ import (
 	"github.com/dolthub/dolt/go/zzverif/vh"
 )
 
-const c20Rule = "K=2-4 datas.Database clients over one database (modes: one shared memory view / one view per client / one shared NBS file-manifest store / one NBS handle per client on a shared directory); each client holds dataset snapshots that go stale; a rapid-drawn schedule of 6-40 calls of Commit (plain, merge, parents without the head, amend incl. the no-op amend, force; a fifth of the commits take pinned metadata from a pool of two so that byte-identical commits get rebuilt), CommitWithWorkingSet, UpdateWorkingSet, FastForward, SetHead, Tag, Delete (branch with/without working set, tag, working set), snapshot refresh and store Rebase on 2-3 branches, their working sets and 2 tags; for about a third of the calls 1-2 calls of other clients are executed right before the 1st/2nd store-root compare-and-swap of the call (ChunkStore.Commit wrapper). Oracle: dataset-map model with per-handle cached root; every call must succeed or fail exactly as its precondition evaluates at the state the optimistic loop checks (ErrMergeNeeded / ErrOptimisticLockFailed / ErrDirtyWorkspace / tag exists), make exactly the predicted number of swaps, and after every call the map read through every client equals that client's view in the model (nothing lost, nothing invented; new commits have the predicted parents and value). Non-trivial: the schedule has >= 1 call rejected because another client had moved the dataset it checked, and >= 1 call that succeeded after losing a swap to a root move that did not involve its datasets; distinct by the hash of (mode, K, op sequence)."
+const c20Rule = "K=2-4 datas.Database clients over one database (modes: one shared memory view / one view per client / one shared NBS file-manifest store / one NBS handle per client on a shared directory); each client holds dataset snapshots that go stale; a rapid-drawn schedule of 6-40 calls of Commit (plain, merge, parents without the head, amend incl. the no-op amend, force; a fifth of the commits take pinned metadata from a pool of two so that byte-identical commits get rebuilt), CommitWithWorkingSet, UpdateWorkingSet (prevHash from the held handle, empty, or re-read while the stale handle is kept; recurring working-set values), FastForward, SetHead, Tag, Delete (branch with/without working set, tag, working set), snapshot refresh and store Rebase on 2-3 branches, their working sets and 2 tags; for about a third of the calls 1-2 calls of other clients are executed right before the 1st/2nd store-root compare-and-swap of the call (ChunkStore.Commit wrapper). Oracle: dataset-map model with per-handle cached root; every call must succeed or fail exactly as its precondition evaluates at the state the optimistic loop checks (ErrMergeNeeded / ErrOptimisticLockFailed / ErrDirtyWorkspace / tag exists), make exactly the predicted number of swaps, and after every call the map read through every client equals that client's view in the model (nothing lost, nothing invented; new commits have the predicted parents and value). Non-trivial: the schedule has >= 1 call rejected because another client had moved the dataset it checked, and >= 1 call that succeeded after losing a swap to a root move that did not involve its datasets; distinct by the hash of (mode, K, op sequence)."
 
 type c20Stats struct {
 	lostRace, unrelatedRetry int
